@@ -202,3 +202,90 @@ loop('PartBatcher._try_move_part_to_output', 1, 'while self._output == None and 
                              '              implies(typed(self._part, "Batch"), len(bparts(self._part)) >= 1))',
           no_external_calls='trace_len() == at_loop_entry(trace_len())'),
      modifies=['self._part', 'self._output', 'self._in_progress_batch', IN_LIST, WIP_LIST, '*.Asset._id_counter', '$trace'])
+
+# --------------------------------------------------------------------------- Batch: routing history reaches every part
+# The update of the batch's own history is the inlined Part method (super() call); the calls on the contained parts
+# are recorded in the ghost trace (extern Part.add_routing_history / remove_from_routing_history: modelled as not raising).
+invariant('Batch', 'routing_history_exists', 'self._routing_history is not None and alive(self._routing_history)')
+RH_NORM = 'old(ite(index < 0, index + len(self._routing_history), index))'     # position removed from the own history
+
+
+def _each_loop(m_, arg_):
+    return {'prefix_done': 'trace_len() == at_loop_entry(trace_len()) + k and '
+                           f'all(trace_kind(at_loop_entry(trace_len()) + j) == fn_id("{m_}") and '
+                           '    trace_recv(at_loop_entry(trace_len()) + j) is self.parts[j] and ' +
+                           arg_.format(i='at_loop_entry(trace_len()) + j') + ' for j in range(k))'}
+
+
+contract('Batch.add_routing_history', props=['C17', 'C08'], args={'device': 'ref:PartFlowController'},
+         raises={'TypeError': ('device is None', {'bad_device_changes_nothing': '@frame:'})},
+         ensures={'appended_to_the_own_history':
+                      'len(self._routing_history) == old(len(self._routing_history)) + 1 and self._routing_history[-1] is device '
+                      'and all(self._routing_history[j] is old(self._routing_history[j]) for j in range(old(len(self._routing_history))))',
+                  'applied_to_every_part_once_in_order_with_the_same_device':
+                      'trace_len() == old(trace_len()) + len(self.parts) and ' +
+                      _each_part('add_routing_history', 'trace_ref({i}, 0) is device'),
+                  'contents_unchanged': 'self.parts is old(self.parts) and seq(self.parts) == old(seq(self.parts))'},
+         modifies=['self._routing_history[]', '$trace'])
+loop('Batch.add_routing_history', 1, 'for p in self.parts', _each_loop('add_routing_history', 'trace_ref({i}, 0) is device'),
+     modifies=['$trace'], index='k')
+
+contract('Batch.remove_from_routing_history', props=['C17', 'C08'], args={'index': 'int'},
+         raises={'IndexError': ('index < -len(self._routing_history) or index >= len(self._routing_history)',
+                                {'bad_index_changes_nothing': '@frame:'})},
+         ensures={'removed_from_the_own_history':
+                      'len(self._routing_history) == old(len(self._routing_history)) - 1 and '
+                      f'all(self._routing_history[j] is old(self._routing_history[ite(j < {RH_NORM}, j, j + 1)]) '
+                      '    for j in range(len(self._routing_history)))',
+                  'applied_to_every_part_once_in_order_with_the_same_index':
+                      'trace_len() == old(trace_len()) + len(self.parts) and ' +
+                      _each_part('remove_from_routing_history', 'trace_real({i}, 0) == index'),
+                  'contents_unchanged': 'self.parts is old(self.parts) and seq(self.parts) == old(seq(self.parts))'},
+         modifies=['self._routing_history[]', '$trace'])
+loop('Batch.remove_from_routing_history', 1, 'for p in self.parts',
+     _each_loop('remove_from_routing_history', 'trace_real({i}, 0) == index'), modifies=['$trace'], index='k')
+
+contract('Batch.add_value', props=['C17', 'C16'], args={'label': 'any', 'value': 'real'},
+         raises={'NotImplementedError': (None, {'a_batch_has_no_value_of_its_own': '@frame:'})},
+         ensures={'never_returns': 'False'}, modifies=[])
+
+contract('Batch.__init__', props=['C17'], invariants='prove_only', fresh_self=True,
+         args={'name': 'str', 'parts': 'list[ref:Part]'},
+         requires={'given_parts_exist': 'parts is None or (alive(parts) and all(p is not None and alive(p) for p in parts))'},
+         ensures={'holds_the_given_list_or_a_new_empty_one':
+                      'ite(parts is None, fresh(self.parts) and len(self.parts) == 0, self.parts is parts)',
+                  'no_value_of_its_own': 'self._value == 0 and self._initial_value == 0 and self._env is None'})
+
+# --------------------------------------------------------------------------- counting the parts an item stands for
+contract('Buffer._get_part_count', props=['C17'], kind='static', args={'part': 'ref:Part'}, result='int', modular=True,
+         requires={'batch_has_a_part_list': 'implies(part is not None and typed(part, "Batch"), bparts(part) is not None)'},
+         ensures={'counts_every_part_of_a_batch_one_otherwise':
+                      'result == ite(part is None, 1, leafcount(part)) and result >= 0'},
+         modifies=[])
+
+# --------------------------------------------------------------------------- continue unpacking after the output left
+# While a downstream neighbour runs (give_part) the part lists of the input being unpacked and of the batch under
+# construction are out of its reach (the input batch was handed over, the batch under construction was never exposed).
+from .handlers import H_PROTECT, H_AFTER, H_NOTE
+rely('PartBatcher', protect=H_PROTECT + ['self._output_batch_size', 'self._in_progress_batch', 'self._part.parts',
+                                         'self._part.parts[]', 'self._in_progress_batch.parts',
+                                         'self._in_progress_batch.parts[]'],
+     after=H_AFTER, note=H_NOTE + '; the parts held by a batcher (input being unpacked, batch under construction) are not '
+                                  'touched by neighbours')
+
+ghost_after('PartBatcher._pass_part_downstream', '<entry>', g_k='0')
+contract('PartBatcher._pass_part_downstream', props=['C17', 'C02'], args={},
+         requires={'initialised': 'self._env is not None and alive(self._env)', 'clock_nonneg': 'self._env._now >= 0',
+                   'output_alive': 'self._output is None or alive(self._output)'},
+         ensures={
+             'unpacking_continues_only_after_the_output_left':
+                 'implies(old(self._output) is not None and not (old(operational(self)) and g_taken >= 0), '
+                 '        g_k == 0 and self._output is old(self._output) and self._part is old(self._part) and '
+                 '        self._in_progress_batch is old(self._in_progress_batch))',
+             'after_hand_over_moves_until_output_filled_or_input_exhausted':
+                 'implies(old(operational(self)) and (old(self._output) is None or g_taken >= 0), '
+                 '        self._output is not None or self._part is None)',
+             'output_refilled_only_from_the_held_input':
+                 'implies(old(self._part) is None, self._part is None and g_k == 0 and '
+                 '        (self._output is None or self._output is old(self._output)))',
+         })
